@@ -95,6 +95,33 @@ Remove(s, p) ==
   ELSE Out("ok", "", "", {}, "-", "", [q \in DOMAIN s \ {r.p} |-> s[q]],
            "remove/" \o s[r.p].k \o (IF r.p # p THEN "-via-link" ELSE ""))
 
+\* os.MkdirAll: nothing to do when the path resolves (links followed) to a directory; otherwise the parents first, then
+\* Mkdir of the last element - which sees a dangling or looping link as an existing entry (EEXIST)
+RECURSIVE MkdirAllR(_, _)
+MkdirAllR(s, p) ==
+  IF p = << >> THEN Out("ok", "", "", {}, "-", "", s, "mkdirall/exists")
+  ELSE LET st == Res(s, p, TRUE) IN
+    IF st.e = "ok" THEN (IF s[st.p].k = "dir" THEN Out("ok", "", "", {}, "-", "", s, "mkdirall/exists" \o (IF st.p # p THEN "-via-link" ELSE ""))
+                         ELSE Fail("ENOTDIR", s, "mkdirall/is-file" \o (IF st.p # p THEN "-via-link" ELSE "")))
+    ELSE LET pr == MkdirAllR(s, SubSeq(p, 1, Len(p) - 1)) IN
+      IF pr.e # "ok" THEN [pr EXCEPT !.st = s, !.b = "mkdirall/parent-" \o pr.e]
+      ELSE LET m == Mkdir(pr.st, p) IN
+        IF m.e = "ok" THEN [m EXCEPT !.b = "mkdirall/created" \o (IF pr.st # s THEN "-with-parents" ELSE "") \o (IF Res(s, SubSeq(p, 1, Len(p) - 1), FALSE).p # SubSeq(p, 1, Len(p) - 1) THEN "-via-link" ELSE "")]
+        ELSE Fail(m.e, s, "mkdirall/last-" \o m.b)
+MkdirAll(s, p) == MkdirAllR(s, p)
+
+\* os.RemoveAll: the entry itself and, for a directory, everything below it; a link is removed, never followed;
+\* a missing name is no error
+RemoveAll(s, p) ==
+  LET r == Res(s, p, FALSE) IN
+  IF r.e \in {"new", "ENOENT"} THEN Out("ok", "", "", {}, "-", "", s, "removeall/missing")
+  ELSE IF r.e # "ok" THEN Fail(r.e, s, "removeall/anc-" \o r.e)
+  ELSE LET gone == { q \in DOMAIN s : Len(q) >= Len(r.p) /\ SubSeq(q, 1, Len(r.p)) = r.p } IN
+       Out("ok", "", "", {}, "-", "", [q \in DOMAIN s \ gone |-> s[q]],
+           "removeall/" \o s[r.p].k \o (IF Cardinality(gone) > 1 THEN "-with-children" ELSE "")
+                        \o (IF s[r.p].k = "link" /\ Res(s, p, TRUE).e = "ok" /\ s[Res(s, p, TRUE).p].k = "dir" THEN "-to-dir" ELSE "")
+                        \o (IF r.p # p THEN "-via-link" ELSE ""))
+
 WriteFile(s, p, d) ==
   LET r == Res(s, p, TRUE) IN
   IF r.e = "ok" THEN
@@ -121,7 +148,8 @@ ReadDir(s, p) ==
 C(op, p, t, d) == [op |-> op, p |-> p, t |-> t, d |-> d]
 Calls ==
        { C(op, p, "", "") : op \in {"stat", "lstat", "lstatorstat", "readfile"}, p \in Paths }
-  \cup { C(op, <<n>>, "", "") : op \in {"remove", "mkdir", "readdir"}, n \in RootNames }
+  \cup { C(op, <<n>>, "", "") : op \in {"remove", "mkdir", "readdir", "removeall"}, n \in RootNames }
+  \cup { C("mkdirall", p, "", "") : p \in Paths }
   \cup { C("remove", <<n, Child>>, "", "") : n \in RootNames }
   \cup { C("symlink", p, t, "") : p \in LinkAt, t \in RootNames }
   \cup { C("writefile", p, "", d) : p \in Paths, d \in Datas }
@@ -132,6 +160,8 @@ Eval(s, c) ==
     [] c.op = "lstatorstat" -> LstatOrStat(s, c.p)
     [] c.op = "symlink"     -> Symlink(s, c.t, c.p)
     [] c.op = "mkdir"       -> Mkdir(s, c.p)
+    [] c.op = "mkdirall"    -> MkdirAll(s, c.p)
+    [] c.op = "removeall"   -> RemoveAll(s, c.p)
     [] c.op = "remove"      -> Remove(s, c.p)
     [] c.op = "writefile"   -> WriteFile(s, c.p, c.d)
     [] c.op = "readfile"    -> ReadFile(s, c.p)
@@ -172,6 +202,12 @@ ModelProps ==
        /\ (c.op = "lstatorstat" /\ r.e # "ok" => r.ae = r.e)
        \* what Symlink creates is a link, visible to Lstat at once, whatever the target
        /\ (c.op = "symlink" /\ r.e = "ok" => Lstat(r.st, c.p).k = "link")
+       \* RemoveAll of a link removes the link only; after any successful RemoveAll the name is gone
+       /\ (c.op = "removeall" /\ r.e = "ok" => ~Has(r.st, c.p))
+       /\ (c.op = "removeall" /\ r.e = "ok" /\ Has(tree, c.p) /\ tree[c.p].k = "link" =>
+             \A q \in DOMAIN tree \ {c.p} : Has(r.st, q) /\ r.st[q] = tree[q])
+       \* after a successful MkdirAll the path resolves to a directory
+       /\ (c.op = "mkdirall" /\ r.e = "ok" => LET x == Res(r.st, c.p, TRUE) IN x.e = "ok" /\ r.st[x.p].k = "dir")
        \* Remove of a link removes the link, never the target
        /\ (c.op = "remove" /\ r.e = "ok" /\ Len(c.p) = 1 /\ tree[c.p].k = "link" =>
              \A q \in DOMAIN tree \ {c.p} : Has(r.st, q) /\ r.st[q] = tree[q])
